@@ -29,7 +29,12 @@ Decoder BinaryIStream::make_decoder(size_t n)
         throw parse_error("make_reader: not enough bytes left.");
     }
     std::vector<uint8_t> vec(n);
-    s_.read(reinterpret_cast<char*>(vec.data()), n);
+    if (n > 0) {
+        s_.read(reinterpret_cast<char*>(vec.data()), n);
+        if (!s_ || static_cast<size_t>(s_.gcount()) != n) {
+            throw parse_error("make_reader: reading from stream failed.");
+        }
+    }
     pos_ += n;
     return Decoder(std::move(vec));
 }
